@@ -806,7 +806,7 @@ fn history_variants(rng: &mut Rng, tiles: &[(u64, Vec<u8>)], set: &Settings, var
 
 pub fn drive_canon(seed: u64, tier: &str, workdir: &str, out: &mut Out) {
     let mut rng = Rng::new(seed ^ 0x43414e);
-    let (targets, variants) = if tier == "thorough" { (60, 6) } else { (16, 4) };
+    let (targets, variants) = if tier == "thorough" { (42, 6) } else { (16, 4) };
     let mut em = Emitter::new();
     let mut child_n = 0usize;
     for t in 0..targets {
@@ -817,7 +817,7 @@ pub fn drive_canon(seed: u64, tier: &str, workdir: &str, out: &mut Out) {
             3 => 300,
             4 => {
                 if tier == "thorough" {
-                    6000
+                    3000
                 } else {
                     1200
                 }
